@@ -16,8 +16,9 @@ Print Assumptions C12_check_sound.
    (each step = migration body over the op alphabet + the version-table statements HeadMaintainer issues for it) such that
    the version heads are non-empty between steps and a run from base is not empty: if every literal of the plan
    round-trips (parse_lit (lit v) = v) and contains no tab, then executing the offline statement stream statement by
-   statement on d has the same observable (tables, columns, rows, indexes, version rows) as the online run on d;
-   if one side aborts so does the other. *)
+   statement on d has the same observable (tables, columns with defaults / NOT NULL, PRIMARY KEY / UNIQUE sets, rows,
+   indexes, version rows) as the online run on d; if one side is stopped by an error so is the other
+   (run_online / offline_effect are None then; see C12_abort_same_statement for what is left behind). *)
 Theorem C12_same_effect : forall (lit : value -> text) (parse_lit : text -> value) (untext : text -> text) d start steps,
   db_at d start -> mid_nonempty start steps = true -> (start = [] -> steps <> []) ->
   (forall v, In v (steps_values steps) -> parse_lit (lit v) = v) ->
@@ -63,14 +64,82 @@ Theorem C12_exec_post_literal : forall term a pre l suf b, is_ws a = false -> is
 Proof. exact exec_post_literal. Qed.
 Print Assumptions C12_exec_post_literal.
 
+(* ---- the offline script as TEXT ---------------------------------------------------------------------------------
+   DefaultImpl._exec on a WHOLE statement text str(compiled) = blanks ++ tokens ++ blanks (tokens: words without tab, runs
+   of blanks, literals delimited by non-blank characters; the first and last token are not blank): the surrounding blanks
+   are stripped, every token has its tabs replaced, the terminator is appended, nothing else happens. *)
+Theorem C12_exec_post_statement : forall term x, stext_wf x = true ->
+  exec_post term (stext_text x) = flat (map post_tok (st_core x)) ++ term.
+Proof. exact exec_post_stext. Qed.
+Print Assumptions C12_exec_post_statement.
+
+(* render = SQLAlchemy's compiler with the token structure of its output, sqlite = SQLite reading one chunk of the script;
+   assumed for the supported constructs: the compiled text is well formed (render_wf) and SQLite reads a text token-wise —
+   runs of blanks are interchangeable, a literal token is read as that literal (sqlite_reads).  Then what SQLite reads
+   from the text _exec wrote for a construct s is s with `post` applied to its literals. *)
+Theorem C12_text_read : forall (render : sqlstmt -> stext) (sqlite : text -> option sqlstmt) term (supported : sqlstmt -> bool),
+  (forall s, supported s = true -> stext_wf (render s) = true) ->
+  (forall s g core', supported s = true -> Forall2 (tok_sim g) (st_core (render s)) core' ->
+                     sqlite (flat core' ++ term) = Some (map_stmt g s)) ->
+  forall s, supported s = true -> sqlite (exec_text render term s) = Some (map_stmt post s).
+Proof. exact text_read. Qed.
+Print Assumptions C12_text_read.
+
+(* MAIN, about statement TEXTS: the script is the list of texts exec_post term (str(compiled)) of the constructs alembic
+   hands to _exec (literals lit v / untext w, no post-processing yet); it is split into chunks, each read by SQLite and
+   executed.  Same hypotheses as C12_same_effect plus the two assumptions on render / sqlite for the constructs of the
+   script. *)
+Theorem C12_same_effect_text : forall (lit : value -> text) (parse_lit : text -> value) (untext : text -> text)
+    (render : sqlstmt -> stext) (sqlite : text -> option sqlstmt) term (supported : sqlstmt -> bool),
+  (forall s, supported s = true -> stext_wf (render s) = true) ->
+  (forall s g core', supported s = true -> Forall2 (tok_sim g) (st_core (render s)) core' ->
+                     sqlite (flat core' ++ term) = Some (map_stmt g s)) ->
+  forall d start steps,
+  db_at d start -> mid_nonempty start steps = true -> (start = [] -> steps <> []) ->
+  (forall v, In v (steps_values steps) -> parse_lit (lit v) = v) ->
+  (forall v, In v (steps_values steps) -> no_tab (lit v) = true) ->
+  (forall w, In w (steps_texts steps) -> no_tab (untext w) = true) ->
+  (forall l, run_offline_plain lit untext start steps = Some l -> forallb supported l = true) ->
+  option_map observable (offline_text_effect lit parse_lit untext render sqlite term d start steps)
+  = option_map observable (run_online lit parse_lit untext d steps).
+Proof. exact same_effect_text. Qed.
+Print Assumptions C12_same_effect_text.
+
 (* the invariant of the induction, for every plan and independent of the literals:
    offline HeadMaintainer.heads = online HeadMaintainer.heads = the rows of the version table *)
-Theorem C12_heads_invariant : forall (lit : value -> text) (parse_lit : text -> value) (untext : text -> text) steps d h s hf d2 h2,
-  snd d = Some h -> NoDup h ->
-  off_steps lit untext h steps = Some (s, hf) -> on_steps lit parse_lit untext d h steps = Some (d2, h2) ->
-  h2 = hf /\ snd d2 = Some hf /\ NoDup hf.
+Theorem C12_heads_invariant : forall (lit : value -> text) (parse_lit : text -> value) (untext : text -> text) steps st h s hf st2 h2,
+  snd (o_cur st) = Some h -> NoDup h ->
+  off_steps lit untext h steps = Some (s, hf) -> on_steps lit parse_lit untext st h steps = (st2, h2, true) ->
+  h2 = hf /\ snd (o_cur st2) = Some hf /\ NoDup hf.
 Proof. exact heads_invariant. Qed.
 Print Assumptions C12_heads_invariant.
+
+(* both commands complete with the same observable, or both are stopped by an error (constraint violation, inapplicable
+   statement, failing bookkeeping assertion) *)
+Theorem C12_outcome_sim : forall (lit : value -> text) (parse_lit : text -> value) (untext : text -> text) d start steps,
+  class_hyps lit parse_lit untext d start steps ->
+  match offline_outcome lit parse_lit untext d start steps, online_outcome lit parse_lit untext d steps with
+  | Done a, Done b => observable a = observable b
+  | Aborted _, Aborted _ => True
+  | _, _ => False
+  end.
+Proof. exact outcome_sim. Qed.
+Print Assumptions C12_outcome_sim.
+
+(* WHEN A STATEMENT FAILS.  The replay of the script (autocommit, statement by statement) stops iff the online run stops,
+   and then after exactly the same statements: the database the replay leaves behind IS the online database before the
+   rollback.  What the online run leaves behind is `rolled_back` of that state: the database at the first DML statement
+   of the failing step (sqlite3 driver: DML opens the transaction, DDL before it is permanent, earlier steps are
+   committed).  The two leftovers are therefore NOT equal in general (C12_abort_nonvacuous) and the property does not
+   claim they are. *)
+Theorem C12_abort_same_statement : forall (lit : value -> text) (parse_lit : text -> value) (untext : text -> text) d start steps script,
+  class_hyps lit parse_lit untext d start steps ->
+  run_offline lit untext start steps = Some script ->
+  let '(p, ok1) := replay_run parse_lit d script in
+  let '(st, _, ok2) := run_online_tx lit parse_lit untext d steps in
+  ok1 = ok2 /\ (ok1 = false -> p = o_cur st /\ online_outcome lit parse_lit untext d steps = Aborted (rolled_back st)).
+Proof. exact abort_same_statement. Qed.
+Print Assumptions C12_abort_same_statement.
 
 (* the concrete literal syntax round-trips on NULL, every integer and every string (any code points, quotes doubled);
    a numeric token round-trips iff it is read as a numeric token (decided per case by lits_roundtripb) *)
@@ -78,8 +147,28 @@ Theorem C12_lit_c_roundtrip : forall v, (forall s, v = VNum s -> parse_c s = VNu
 Proof. exact lit_c_roundtrip. Qed.
 Print Assumptions C12_lit_c_roundtrip.
 
-(* non-vacuity: a two-step branched plan from a non-empty database satisfies every hypothesis of C12_main (hence of
-   C12_same_effect with lit_c/parse_c), and both runs succeed with two tables and version rows {r1, r2} *)
+(* non-vacuity: a two-step branched plan from a non-empty database (defaults, NOT NULL, primary key, unique index, omitted
+   and None cells, a backslash-colon escape) satisfies every hypothesis of C12_main (hence class_hyps with lit_c/parse_c/
+   untext_c), and both runs succeed with two tables and version rows {r1, r2} *)
 Example C12_main_nonvacuous : exists i, inclass_C12 i = true /\ length (i_steps i) = 2%nat /\
-  exists o, o_on (model_C12 i) = Some o /\ ob_vers o = [1; 2] /\ length (ob_tabs o) = 2%nat.
+  exists o, o_on (model_C12 i) = ROk o /\ ob_vers o = [1; 2] /\ length (ob_tabs o) = 2%nat.
 Proof. exact main_nonvacuous. Qed.
+(* an aborting run inside the class (a repeated primary key in the third bulk row): the online leftover has no rows in
+   either table, the offline leftover keeps the two rows inserted before the failing statement *)
+Example C12_abort_nonvacuous : exists i, inclass_C12 i = true /\
+  exists a b, o_on (model_C12 i) = RErr a /\ o_off (model_C12 i) = RErr b /\
+  length (ob_tabs a) = 2%nat /\ length (ob_tabs b) = 2%nat /\
+  map (fun t => length (t_rows t)) (ob_tabs a) = [0; 0]%nat /\ map (fun t => length (t_rows t)) (ob_tabs b) = [2; 0]%nat.
+Proof. exact abort_nonvacuous. Qed.
+(* the hypotheses of C12_same_effect_text are jointly satisfiable: a toy compiler / reader pair (code points stand for
+   keywords and ids) for INSERT and the version-table statements, and a one-step plan from base whose text-level replay
+   completes with one row and version row r5 *)
+Example C12_text_nonvacuous :
+  (forall s, supported_c s = true -> stext_wf (render_c s) = true) /\
+  (forall s g core', supported_c s = true -> Forall2 (tok_sim g) (st_core (render_c s)) core' ->
+                     sqlite_c (flat core' ++ [59]) = Some (map_stmt g s)) /\
+  inclass_C12 (mkIn toy_db [] toy_steps []) = true /\
+  (forall l, run_offline_plain lit_c untext_c [] toy_steps = Some l -> forallb supported_c l = true) /\
+  exists d, offline_text_effect lit_c parse_c untext_c render_c sqlite_c [59] toy_db [] toy_steps = Some d /\
+            ob_vers (observable d) = [5] /\ map (fun t => length (t_rows t)) (ob_tabs (observable d)) = [1%nat].
+Proof. exact text_nonvacuous. Qed.
